@@ -5,7 +5,9 @@
 // declarations: its impl-header pattern does not read `[u8]`.)
 //@@ include tokens.rs
 //@@ include tokens_bytes.rs
+//@@ include tokpart.rs
+//@@ include tokbridge.rs
 //@@ props ^DiffableStr for str::tokenize_ : C06
 //@@ props ^DiffableStr::tokenize_ : C06
-//@@ props ^lemma_tok_|^lemma_tokb_ : C06
+//@@ props ^lemma_tok_|^lemma_tokb_|^lemma_tokpart_ : C06 C04 C17
 fn main() {}
